@@ -2,6 +2,7 @@ import JediModel.Proto
 import JediModel.Lemmas.Tree
 import JediModel.Model.Names
 import JediModel.Model.ParsoPos
+import JediModel.Model.ScriptParse
 import JediModel.Gen.C17
 open Lean Proto JediModel.Text JediModel.Tree JediModel.Names JediModel.ParsoPos
 
@@ -17,6 +18,15 @@ def parseOcc (j : Json) : Occ :=
   match asArr j with
   | [l, c, v, d, m] => { pos := ⟨asNat l, asNat c⟩, value := (asStr v).toList, isDef := asBool d, moduleScope := asBool m }
   | _ => { pos := ⟨0, 0⟩, value := [], isDef := false, moduleScope := false }
+
+def parseFileOp (j : Json) : JediModel.ScriptParse.Op :=
+  let code : Option Nat := (optInt j "code").map Int.toNat
+  match str j "op" with
+  | "write" => .write (nat j "content") (nat j "mtime")
+  | "remove" => .remove
+  | "restart" => .restart
+  | "script" => .script code (nat j "now")
+  | _ => .parse (bool j "cache") (bool j "diff") code (nat j "now")
 
 def handle (j : Json) : Json :=
   match str j "op" with
@@ -45,6 +55,18 @@ def handle (j : Json) : Json :=
       | _ => (false, false, false)
     jarr ((namesHistory ⟨JediModel.Gen.C17.namesSourceMemoised, JediModel.Gen.C17.namesSourceOneShot⟩ occs [] fs).map
       fun ans => jarr (ans.map fun o => jarr [jnat o.pos.line, jnat o.pos.col, jchars o.value, jbool o.isDef]))
+  | "scripthist" =>
+    -- a history of ONE path: writes / removals / restarts / Script(...) / grammar.parse(...); the cache policy of
+    -- Script.__init__ as the translator found it
+    let ops := (arr j "ops").map parseFileOp
+    let cfg := JediModel.ScriptParse.cfgOf JediModel.Gen.C17.scriptParseCache JediModel.Gen.C17.scriptDiffCache
+    jarr ((ops.zip (JediModel.ScriptParse.run cfg {} ops)).map fun (op, r) =>
+      match op, r with
+      | .script .., some s => jarr [jnat s.tree, jnat s.code]
+      | .parse .., some s => jarr [jnat s.tree, jnat s.code]
+      | .script .., none => jstr "no-file"
+      | .parse .., none => jstr "no-file"
+      | _, _ => .null)
   | "textat" =>
     match textFrom (splitLines (chars j "text")) ⟨nat j "line", nat j "col"⟩ with
     | some s => jchars (s.take (nat j "n"))
